@@ -225,7 +225,7 @@ func classify(r *pbt.Run, c *Case, g *gen, v *verdict) {
 }
 
 func TestVerify(t *testing.T) {
-	pbt.Check(t, pbt.Cfg{Name: "verify", Quick: 80000, Thorough: 2500000}, func(r *pbt.Run) {
+	pbt.Check(t, pbt.Cfg{Name: "verify", Quick: 80000, Thorough: 1500000}, func(r *pbt.Run) {
 		c, g := genSpend(r.T, false, false)
 		r.Case(c)
 		v, err := checkCase(c)
@@ -285,7 +285,7 @@ func checkCorrect(c Case) error {
 }
 
 func TestCorrectSpends(t *testing.T) {
-	pbt.Check(t, pbt.Cfg{Name: "correct_spends", Quick: 6000, Thorough: 100000}, func(r *pbt.Run) {
+	pbt.Check(t, pbt.Cfg{Name: "correct_spends", Quick: 6000, Thorough: 60000}, func(r *pbt.Run) {
 		c, g := genSpend(r.T, true, true)
 		if !expectAlwaysValid(&c, g) {
 			r.T.Skip("kind without an always-valid form")
